@@ -35,7 +35,8 @@ Definition s_digits20 : list Z := repeat 57 20.
 Section Witnesses.
   Variable du : list Z -> bool -> bool -> result pval.
 
-  Lemma w_minute_absent : forall rs, parse_full du rs opts0 s_2colon = Raise E_TypeError /\ common_minute_absent s_2colon = true.
+  (* "2:" (COMMON's minute group is mandatory): rejected with ParserError by both backends; strict=True, so dateutil is not consulted *)
+  Lemma w_minute_absent : forall rs, parse_full du rs opts0 s_2colon = Raise E_ParserError /\ common_minute_absent s_2colon = false.
   Proof. intros [|]; split; vm_compute; reflexivity. Qed.
 
   Lemma w_interval_endpoints : forall rs,
